@@ -1220,6 +1220,10 @@ impl StateMachine for FileStateMachine {
                                 .as_ref()
                                 .expect("lease always initialized by NodeBuilder");
                             lease.register(key.clone(), *ttl);
+                        } else if let Some(ref lease) = self.lease {
+                            // a put without TTL replaces the key: an expiry registered by an
+                            // earlier put must not delete the new value
+                            lease.unregister(key);
                         }
                         results.push(ApplyResult::success(entry.index));
                     }
